@@ -27,3 +27,47 @@ Definition check_one (uvs : list F2) (faces : list (Z * Z * Z)) (o : Z * (float 
 Fixpoint first_nz (l : list Z) : Z := match l with [] => 0%Z | x :: l' => if Z.eqb x 0 then first_nz l' else x end.
 Definition check_uv (uvs : list F2) (faces : list (Z * Z * Z)) (obs : list (Z * (float * float * float) * F2 * Z * (float * float * float))) : Z :=
   first_nz (map (check_one uvs faces) obs).
+
+(* ---- engeom's arithmetic upstream of the sparse solver (hook conformal_verif), on the edge table the implementation built ---- *)
+From EG Require Import Model.Conformal.
+Notation F3 := (@V3 FNum).
+Fixpoint all2 {A B} (f : A -> B -> bool) (l1 : list A) (l2 : list B) : bool :=
+  match l1, l2 with [], [] => true | a :: l1', b :: l2' => f a b && all2 f l1' l2' | _, _ => false end.
+Definition c93 (a b : float * float * float) : bool :=
+  let '(a0, a1, a2) := a in let '(b0, b1, b2) := b in c9 a0 b0 && c9 a1 b1 && c9 a2 b2.
+Definition zn2 (e : Z * Z) : nat * nat := (Z.to_nat (fst e), Z.to_nat (snd e)).
+Definition zn3 (e : Z * Z * Z) : nat * nat * nat := let '(a, b, c) := e in (Z.to_nat a, Z.to_nat b, Z.to_nat c).
+(* an angle within 0.05 of 0 or pi: the cotangent amplifies rounding beyond any fixed tolerance *)
+Definition thin (t : float * float * float) : bool :=
+  let '(a, b, c) := t in let lo := 0x1.999999999999ap-5 in let hi := @npi FNum - lo in
+  (a <? lo) || (b <? lo) || (c <? lo) || (hi <? a) || (hi <? b) || (hi <? c).
+Definition trip_eq (m : nat * nat * float) (r : Z * Z * float) : bool :=
+  let '(mr, mc, mv) := m in let '(rr, rc, rv) := r in Z.eqb (Z.of_nat mr) rr && Z.eqb (Z.of_nat mc) rc && c9 mv rv.
+
+Definition check_internals (verts : list F3) (faces : list (Z * Z * Z)) (edges : list (Z * Z)) (face_edges : list (Z * Z * Z)) (bound : list Z)
+    (r_len : list float) (r_ang : list (float * float * float)) (r_def : list float) (r_trip : list (Z * Z * float))
+    (r_blen r_bmass r_cum : list float) : Z :=
+  let es := map zn2 edges in let fes := map zn3 face_edges in let fs := map zn3 faces in let ib := map Z.to_nat bound in
+  let n := length verts in
+  let lens := @edge_lengths FNum verts es in
+  if negb (all2 c9 lens r_len) then 1%Z else
+  let angs := @all_face_angles FNum lens fes in
+  if existsb thin angs then 100%Z else
+  if negb (all2 c93 angs r_ang) then 2%Z else
+  if negb (all2 c9 (@angle_defects FNum n ib angs fs) r_def) then 3%Z else
+  if negb (all2 trip_eq (@triplets FNum n es (@edge_weights FNum (length es) fes angs)) r_trip) then 4%Z else
+  let bl := @boundary_edge_lengths FNum verts ib in
+  if negb (all2 c9 bl r_blen) then 5%Z else
+  if negb (all2 c9 (@boundary_vertex_masses FNum bl) r_bmass) then 6%Z else
+  if negb (all2 c9 (@cumulative_sum FNum bl (- 0x1p-1)) r_cum) then 7%Z else 0%Z.
+
+(* ---- the flattening certificate of Proofs/Congruent.v (face_ok for every face), evaluated in binary64 with the
+        relative tolerance 1e-6 of the longest edge on the lengths: flat source coordinates and the returned layout ---- *)
+Definition check_cert (flat uv : list F2) (faces : list (Z * Z * Z)) (scale : float) : Z :=
+  let P (l : list F2) (i : Z) := nth (Z.to_nat i) l (0, 0) in
+  let tol := 0x1.0c6f7a0b5ed8dp-20 * scale in
+  let lenok (i j : Z) := abs (@dist2 FNum (P flat i) (P flat j) - @dist2 FNum (P uv i) (P uv j)) <=? tol in
+  first_nz (map (fun f => let '(i, j, k) := f in
+     if negb (lenok i j && lenok j k && lenok i k) then 1%Z
+     else if negb ((0 <? @area2 FNum (P flat i) (P flat j) (P flat k)) && (0 <? @area2 FNum (P uv i) (P uv j) (P uv k))) then 2%Z
+     else 0%Z) faces).
